@@ -420,7 +420,7 @@ def limit_phase(tier, base_seed):
 # ---------------------------------------------------------------------------
 # PRINCE-LING on the shipped rulesets
 
-def _prince_job(name, lower, n, m, hash_seed):
+def _prince_job(name, lower, n, m, hash_seed, n_file=None):
     """prince_ling.main() --size m in-process (pops recorded: order, product, nothing skipped, expansion order as written)
     and the real prince_ling.py --size n (n < m) in a fresh interpreter under another string-hash seed: a prefix"""
     import subprocess
@@ -474,6 +474,29 @@ def _prince_job(name, lower, n, m, hash_seed):
         k = next((i for i, (a, b) in enumerate(zip(got, lines)) if a != b), min(len(got), n))
         out["problem"] = ("size_is_not_a_prefix_of_the_longer_list_across_processes",
                           {"size": n, "longer": m, "written": len(got), "first_difference_at_word": k, "hash_seed": hash_seed})
+        return out
+    if n_file:
+        # the same list written to a file (tens of thousands of words: whatever batching the writer does is crossed)
+        ofile = os.path.join(wr, "prince_big_out.txt")
+        if os.path.exists(ofile):
+            os.unlink(ofile)
+        p = subprocess.run([sys.executable, "-W", "ignore", os.path.join(code, "prince_ling.py")] + base +
+                           ["--size", str(n_file), "-o", ofile],
+                           stdin=subprocess.DEVNULL, stdout=subprocess.PIPE, stderr=subprocess.DEVNULL, timeout=600,
+                           env=dict(os.environ, PYTHONUTF8="1", PYTHONHASHSEED=str(hash_seed + 1)))
+        try:
+            ftext = open(ofile, "rb").read().decode(ref.encoding, "surrogateescape")
+        except OSError:
+            out["problem"] = ("output_file_missing", {"size": n_file})
+            return out
+        os.unlink(ofile)
+        want = "".join(l + "\n" for l in lines[:n_file])
+        if ftext != want:
+            fl = ftext.split("\n")
+            k = next((i for i, (a, b) in enumerate(zip(fl, lines)) if a != b), min(len(fl), n_file))
+            out["problem"] = ("file_differs_from_stdout", {"size": n_file, "file_lines": ftext.count("\n"),
+                                                           "first_difference_at_word": k, "file_has": fl[k:k + 1], "stdout_has": lines[k:k + 1]})
+        out["file_words"] = n_file
     return out
 
 
@@ -489,12 +512,14 @@ def prince_phase(tier, base_seed):
     for h in range(1 if tier == "quick" else 8):
         name = names[(base_seed + h) % len(names)]
         n = t.between(1, 2000) if t.chance(1, 2) else t.between(1, 60000)
-        m = n + t.between(1, 20000)
-        jobs.append((name, t.chance(1, 3), n, m, 1 + t.draw(50000)))
+        n_file = t.between(9000, 45000)
+        m = max(n, n_file) + t.between(1, 20000)
+        jobs.append((name, t.chance(1, 3), n, m, 1 + t.draw(50000), n_file))
     for r in _fan_out(_prince_job, jobs):
         out["shipped_ruleset_prince_pairs"] += 1
         out["shipped_ruleset_prince_words"] += r["n"] + r["m"]
         out["shipped_ruleset_prince_pops"] += r["pops"]
+        out["shipped_ruleset_prince_words_to_file"] = out.get("shipped_ruleset_prince_words_to_file", 0) + r.get("file_words", 0)
         if r["problem"]:
             out["violations"].append({"seed": base_seed, "tape": list(t.rec), "violation": {
                 "property": "C17", "kind": "shipped_ruleset:" + r["problem"][0], "key": None,
